@@ -855,6 +855,20 @@ func loadedLimit(plain time.Duration) time.Duration {
 
 var errChildHung = fmt.Errorf("child process hung")
 
+// mainGoroutineBlocked reads a SIGQUIT goroutine dump: true when goroutine 1 (the history runner: BeginBlock … Commit) has been
+// parked for minutes (e.g. "[sync.RWMutex.Lock, 4 minutes]"), or when there is no dump to read (the conservative answer).
+func mainGoroutineBlocked(out string) bool {
+	k := strings.Index(out, "\ngoroutine 1 ")
+	if k < 0 {
+		return true
+	}
+	head := out[k+1:]
+	if j := strings.Index(head, "\n"); j > 0 {
+		head = head[:j]
+	}
+	return strings.Contains(head, "minutes]")
+}
+
 // runChild runs cmd with the timeout; returns the combined output.
 func runChild(cmd *exec.Cmd, timeout time.Duration) (string, error) {
 	var buf bytes.Buffer
@@ -978,6 +992,13 @@ func Concurrent(profile string, baseSeed int64, n int, tier, keep, self, raceBin
 			ioutil.WriteFile(dst, []byte(fmt.Sprintf("profile=%s seed=%d readers=%d: the node process hung under concurrent queries: %s (the query-free run of the whole history took %s)\n%s\n", profile, seed, readers, head, plainTook.Round(time.Millisecond), tailBytes(outB[k:], 400000))), 0o644)
 			res.viol("C25", fmt.Sprintf("node hung under concurrent read-only queries (%s; query-free run of the whole history: %s; goroutine dump in the replay file): %s", strings.TrimSuffix(strings.TrimPrefix(head, "READER-WATCHDOG "), "; goroutine dump:"), plainTook.Round(time.Second), clip(hangSummary(outB[k:]), 300)), dst)
 			res.Notes["stopped_after_hang"] = fmt.Sprintf("history %d of %d (seed %d)", i+1, n, seed)
+			continue
+		}
+		if errB == errChildHung && !mainGoroutineBlocked(outB) {
+			// The backstop fired but block execution was still advancing (the watchdog inside the child saw new heights, and
+			// in the SIGQUIT dump the main goroutine is running / runnable, not parked for minutes): the machine was too
+			// loaded for the time limit, which says nothing about the node. Not a violation; the history is not counted.
+			res.Notes["loaded_run_too_slow_not_counted"] = fmt.Sprintf("seed %d: no end within %s although block execution kept advancing (query-free run %s)", seed, limit, plainTook.Round(time.Millisecond))
 			continue
 		}
 		if errB == errChildHung {
